@@ -678,6 +678,13 @@ class Fn:
                 vals = self._vector_contents(base, tuple(steps[2:]), visiting)
                 if vals is not None:
                     return vals
+            if base and len(steps) >= 2 and steps[0] == ("variant", "Some") and steps[1] == ("field", 0) \
+                    and all(len(o) == 1 and o[0][0] == "call" and o[0][1] == self.id and o[0][3] == "std::iter::once" for o in base):
+                # the one element of `std::iter::once(x)` is x
+                out = set()
+                for o in base:
+                    out |= self._op_origins(self.call_at[o[0][2]].args[0], tuple(steps[2:]), visiting)
+                return out
             return {o + (("next", self.id, cs.bb),) + steps for o in base}
         # local getter summaries
         summ = self.prog.return_summary(cs)
